@@ -12,6 +12,7 @@ import numpy as np
 import z3
 
 from ..sym import (Stats, SymBool, SymReal, explore, nanflag, same, symarray,
+                   zsum,
                    term)
 from ..util import arr_from_witness, mask_from_witness, snapshot, unchanged
 
@@ -38,8 +39,9 @@ META = dict(
                  'compiled circular mask weights taken as given (C01)',
                  'areas (pure float sums) compared with tolerance 1e-9'],
     stubs=['numpy facade'],
-    outside=['monotonicity for non-negative data (needs weight '
-             'monotonicity in r: geometry, C01)',
+    outside=['monotonicity of the curve of growth between the listed radii '
+             'sets (weight monotonicity in r for arbitrary r is geometry, '
+             'C01)',
              'interpolator values between the sampled radii'],
     min_obligations=30,
 )
@@ -182,6 +184,24 @@ def _run_sym(case):
             ctx.find(f'{case["cls"]}:profile', 'profile/profile_error/area '
                      'differ from the circular-aperture sums of the unmasked '
                      'finite data', ctx.witness(m), params=params)
+        if case['cls'] == 'cog' and twin in (None, 'decreasing'):
+            # non-negative data => non-decreasing curve of growth (masked and
+            # NaN pixels do not count; 1e-12 relative slack for the float
+            # rounding of the compiled overlap weights)
+            good = [term(data[y, x]) for y in range(H) for x in range(W)
+                    if not eff[y, x]]
+            hyp = [g >= 0 for g in good]
+            if twin == 'decreasing':
+                hyp = hyp[1:]
+            slack = zsum(good) * z3.RealVal('1/1000000000000')
+            mono = [z3.Or(nanflag(prof[k]), nanflag(prof[k + 1]),
+                          term(prof[k + 1]) >= term(prof[k]) - slack)
+                    for k in range(len(rr) - 1)]
+            r_, m = ctx.holds(z3.Implies(z3.And(hyp), z3.And(mono)),
+                              'monotone')
+            if r_ == 'sat':
+                ctx.find('cog:monotone', 'curve of growth decreases for '
+                         'non-negative data', ctx.witness(m), params=params)
         if not (unchanged(data, ds) and unchanged(err, es)
                 and (mask is None or np.array_equal(mask, ms))):
             ctx.stats.obligations += 1
@@ -320,6 +340,8 @@ def cases(tier, seed):
         nan='none')
     sym('rp', (4, 4), 'mid', 'from0', ('exact', 5), False, twin='shiftbin',
         nan='none')
+    sym('cog', (4, 4), 'mid', 'from0', ('exact', 5), False, twin='decreasing',
+        nan='none')
     for cls in ('rp', 'cog'):
         cs.append(dict(kind='hist', name=f'history-{cls}', cls=cls,
                        len=4 if tier == 'quick' else 5))
@@ -357,6 +379,15 @@ def replay(f):
         prof = np.array(obj.profile)
         perr = np.array(obj.profile_error)
         area = np.array(obj.area)
+    if f['key'] == 'cog:monotone':
+        ok = np.where(np.isfinite(d) & np.isfinite(e) & ~(
+            m0 if m0 is not None else np.zeros((H, W), bool)), d, 0.0)
+        if (ok < 0).any():
+            return False, 'witness has negative unmasked data'
+        bad = any(np.isfinite(prof[k]) and np.isfinite(prof[k + 1])
+                  and prof[k + 1] < prof[k] - 1e-12 * ok.sum()
+                  for k in range(len(rr) - 1))
+        return bad, f'data={d.tolist()} radii={rr} profile={prof.tolist()}'
     if 'input-modified' in f['key']:
         bad = mask is not None and not np.array_equal(mask, m0)
         return bad, f'mask before {None if m0 is None else m0.tolist()} ' \
